@@ -79,6 +79,40 @@ func init() {
 					p.Scn.DurationSec = 1500
 				}
 				p.Heal.On = true
+			} else if tier != "enum-base" && len(p.Ops) > 0 && rapid.IntRange(0, 3).Draw(t, "lost-result") == 0 {
+				// the result of the first claim payment attempt is lost (the call errors, the HTLC
+				// settles a few seconds later) and right afterwards something else goes wrong for
+				// the pay loop: its chain back-end fails, or the chain jumps past the payment window
+				op := p.Ops[0]
+				taker, claim := op.Node, 2 // swap-out: attempt 1 is the fee payment
+				if op.Kind == "swapin" {
+					taker, claim = 1-op.Node, 1
+				}
+				p.Scn.BlockEverySec, p.Scn.LBlockEverySec = 5, 5
+				p.Scn.LNLatencyMs = pick(t, "lrlat", []int{200, 3000})
+				p.LN = []world.LNFault{{Idx: claim, Kind: "errpending-settle"}}
+				p.Crashes, p.Net, p.Silence, p.Adv = nil, nil, nil, nil
+				// the opening has its confirmations after 3 (2) blocks of 5s; the pay loop makes its
+				// first attempt one tick (10s) later and the next ones every 10s
+				payAt := 5000*3 + 10000
+				if op.Chain == "lbtc" {
+					payAt = 5000*2 + 10000
+				}
+				from := payAt + pick(t, "lrlead", []int{1500, 5000, 9500})
+				if rapid.Bool().Draw(t, "lr-height") {
+					site := "btc.rpc.height"
+					if op.Chain == "lbtc" {
+						site = pick(t, "lrsite", []string{"lbtc.rpc.height", "lbtc.rpc.height", "electrum.history"})
+					}
+					p.Faults = []world.Fault{{Node: taker, Site: site, Kind: "err", FromMs: from, ToMs: from + pick(t, "lrlen", []int{15000, 40000, 200000})}}
+				} else {
+					p.Faults = nil
+					p.Chain = []world.ChainEv{{AtMs: from, Chain: op.Chain, Kind: "mine", N: pick(t, "lrburst", []int{70, 520, 600})}} // past the payment window, short of the CSV
+				}
+				if p.Scn.DurationSec < 600 {
+					p.Scn.DurationSec = 600
+				}
+				p.Heal.On = true
 			}
 			return p
 		},
@@ -144,6 +178,7 @@ func init() {
 		Gen: func(t *rapid.T, tier string) *world.Plan {
 			o := genOpts{maxCrashes: 3, maxFaults: 1, maxNet: 2, maxLN: 1, sched: true, healProb: 30, restartMs: []int{500, 5000, 60000}}
 			if tier == "enum-base" {
+				// (the framework varies swap type and payment outcome over the bases: varyBase)
 				o = genOpts{duration: []int{300}}
 			}
 			return genPlan(t, o)
